@@ -244,6 +244,24 @@ pub fn run(ctx: &mut Ctx) {
         ctx.bounds.insert("sequence_length_completed".into(), json!(len));
         level = next;
     }
+    // long periodic sequences: every event and every ordered pair of events repeated up to length 60
+    // (counters, caches and tables that only misbehave after many messages)
+    let mut periodic: Vec<Vec<usize>> = vec![];
+    for a in 0..alpha.len() {
+        periodic.push(vec![a; 60]);
+        for b in 0..alpha.len() {
+            if a != b {
+                periodic.push((0..60).map(|i| if i % 2 == 0 { a } else { b }).collect());
+            }
+        }
+    }
+    let rs: Vec<(Vec<usize>, HistResult)> = periodic.par_iter().map(|h| (h.clone(), run_history(&alpha, h, Box::new(MemSrv::new(Some(vec![0, 1])))))).collect();
+    for (h, r) in rs {
+        count += 1;
+        ctx.distinct(&format!("periodic|{}|{}", h[0], h[1]));
+        record(ctx, &alpha, &h, &r, "memory");
+    }
+    ctx.bounds.insert("periodic_sequences".into(), json!(format!("{} sequences of length 60 (period 1 and 2)", periodic.len())));
     ctx.evaluations = transitions + count;
     ctx.extra.insert("sequences_without_dedup".into(), json!(count));
 
